@@ -20,7 +20,7 @@ PROP = "C12"
 SPEC, MON, MONCFG = "BridgeAPI.tla", "BridgeAPITrace.tla", "BridgeAPITrace.cfg"
 
 MODELS = {"quick": ["BridgeAPI.cfg", "BridgeAPIL1.cfg", "BridgeAPIL2.cfg"],
-          "thorough": ["BridgeAPIT.cfg", "BridgeAPIL1T.cfg", "BridgeAPIL2T.cfg"]}
+          "thorough": ["BridgeAPIT.cfg", "BridgeAPIL1T.cfg", "BridgeAPIL2T.cfg", "BridgeAPIJ2T.cfg", "BridgeAPIL2bT.cfg"]}
 GENS = {"quick": ["BridgeAPIGen.cfg", "BridgeAPIGenL1.cfg", "BridgeAPIGenL2.cfg"],
         "thorough": ["BridgeAPIGenT.cfg", "BridgeAPIGenL1T.cfg", "BridgeAPIGenL2T.cfg"]}
 SAMPLE = {"quick": 260, "thorough": 5000}       # per generator config
